@@ -11,6 +11,6 @@ RUSTFLAGS="--cfg findutils_verif" cargo build --offline --bins --manifest-path /
 # parse every specification module once (SANY), so that a broken spec is a setup failure
 for f in spec/*.tla spec/mc/*.tla spec/trace/*.tla; do
   [ -f "$f" ] || continue
-  java -DTLA-Library="$PWD/spec" -cp /opt/veriftools/tla/tla2tools.jar:/opt/veriftools/tla/CommunityModules-deps.jar tla2sany.SANY "$f" >build/sany.log 2>&1 || { cat build/sany.log; echo "SANY failed on $f"; exit 1; }
+  java -DTLA-Library="$PWD/spec:$PWD/spec/mc" -cp /opt/veriftools/tla/tla2tools.jar:/opt/veriftools/tla/CommunityModules-deps.jar tla2sany.SANY "$f" >build/sany.log 2>&1 || { cat build/sany.log; echo "SANY failed on $f"; exit 1; }
 done
 echo setup ok
